@@ -31,6 +31,10 @@ pub struct Plan {
     pub max_fork_depth: u64,
     pub n_flows: usize,
     pub wave_period: u64,
+    /// secondary epoch reward in force after genesis (None: the spec's). A tiny value makes
+    /// finalised rewards straddle the occupied capacity of the cellbase output, so that the
+    /// "reward too small to create a cell" rule is exercised.
+    pub low_secondary: Option<u64>,
     pub tree: TreeCfg,
 }
 
@@ -43,6 +47,8 @@ pub fn plan(rng: &mut Rng, hi: u64, tier: Tier, blocks_override: Option<u64>) ->
         Tier::Quick => {
             if hi == 0 {
                 (2 + rng.below(3), 2)
+            } else if hi == 3 {
+                (2 + rng.below(7), 2 + rng.below(2))
             } else {
                 (2 + rng.below(7), 3 + rng.below(6))
             }
@@ -55,6 +61,11 @@ pub fn plan(rng: &mut Rng, hi: u64, tier: Tier, blocks_override: Option<u64>) ->
             }
         }
     };
+    let low_secondary = match tier {
+        Tier::Quick => hi == 5,
+        Tier::Thorough => hi % 8 == 5,
+    };
+    let epoch_len = if low_secondary { 2 + rng.below(2) } else { epoch_len };
     p.epoch = EpochMode::Permanent {
         genesis_len,
         epoch_len,
@@ -66,6 +77,9 @@ pub fn plan(rng: &mut Rng, hi: u64, tier: Tier, blocks_override: Option<u64>) ->
         1 => 3 + rng.below(4) + 8 * rng.below(3),
         _ => 40 + rng.below(200),
     });
+    if low_secondary {
+        p.halving_interval = Some(3 + rng.below(3));
+    }
     p.issued_cells = 48;
     p.issued_capacity_ckb = 100_000;
     p.max_uncles_num = Some(2);
@@ -77,8 +91,10 @@ pub fn plan(rng: &mut Rng, hi: u64, tier: Tier, blocks_override: Option<u64>) ->
             Tier::Quick => {
                 if hi == 0 {
                     dao_need.max(820)
+                } else if hi == 3 {
+                    dao_need.max(820).min(1200)
                 } else {
-                    600
+                    600 + rng.usize_below(300)
                 }
             }
             Tier::Thorough => {
@@ -109,10 +125,11 @@ pub fn plan(rng: &mut Rng, hi: u64, tier: Tier, blocks_override: Option<u64>) ->
         genesis_len,
         epoch_len,
         n_blocks,
-        fork_pm: 25 + rng.below(50),
+        fork_pm: 50 + rng.below(70),
         max_fork_depth: 1 + rng.below(6),
         n_flows: 6 + rng.usize_below(6),
         wave_period: 50 + rng.below(60),
+        low_secondary: if low_secondary { Some((20 + rng.below(180)) * epoch_len * SHANNONS + rng.below(SHANNONS)) } else { None },
         tree,
     }
 }
@@ -573,8 +590,10 @@ pub fn adopt_uncle_proposals(tg: &mut TreeGen, x: &H) {
     let block = tg.rc.get(x).block.clone();
     let mut extra: Vec<TransactionView> = vec![];
     for u in block.uncles().into_iter() {
+        // only the uncle's OWN proposals count (not those of the uncle's uncles)
+        let own: HashSet<packed::ProposalShortId> = u.data().proposals().into_iter().collect();
         if let Some(i) = tg.info.get(&h(&u.hash())) {
-            extra.extend(i.proposed.iter().cloned());
+            extra.extend(i.proposed.iter().filter(|t| own.contains(&t.proposal_short_id())).cloned());
         }
     }
     if extra.is_empty() {
